@@ -661,7 +661,7 @@ var propC03 = Register(&Prop{ID: "C03", Sub: "sessions",
 		defer r.close()
 		steps := bson.A{}
 		mk := func() bson.D { return bson.D{{Key: "steps", Value: steps}} }
-		n := rapid.IntRange(12, 60).Draw(t, "nsteps")
+		n := rapid.IntRange(20, 90).Draw(t, "nsteps")
 		trk := newOIDTracker()
 		for i := 0; i < n; i++ {
 			st := genC03Step(t, r)
